@@ -58,6 +58,14 @@ static std::string full_digest(SoPlex& spx, bool withSolution = true)
       if(spx.hasPrimalRay()) { VectorReal v(nn); for(int j = 0; j < nn; ++j) v[j] = 12345.0; spx.getPrimalRay(v); for(int j = 0; j < nn; ++j) o << "," << hexd(v[j]); }
       if(spx.hasDualFarkas()) { VectorReal w(mm); for(int i = 0; i < mm; ++i) w[i] = 12345.0; spx.getDualFarkas(w); for(int i = 0; i < mm; ++i) o << "," << hexd(w[i]); }
    }
+   // tolerance wiring: the solver, the floating-point LP and the rational LP of an object use the object's OWN Tolerances object (a copy that keeps the source's object
+   // would follow the source's later parameter changes); 1 = own, 0 = foreign, - = component absent
+   {
+      const Tolerances* own = spx.tolerances().get();
+      o << "|W" << (spx._solver.tolerances().get() == own ? 1 : 0)
+        << (spx._realLP == nullptr ? '-' : (spx._realLP->tolerances().get() == own ? '1' : '0'))
+        << (spx._rationalLP == nullptr ? '-' : (spx._rationalLP->tolerances().get() == own ? '1' : '0'));
+   }
    // integrality information handed over by the user (read from the solver's private copy; there is no getter)
    o << "|I";
    for(int j = 0; j < spx._solver.integerVariables.size(); ++j) o << spx._solver.integerVariables[j];
